@@ -242,3 +242,12 @@ func traceKinds(tr *kernel.Trace) string {
 	}
 	return out
 }
+
+func jsonUnmarshal(bz []byte, v interface{}) error {
+	if len(bz) == 0 {
+		return nil
+	}
+	return json.Unmarshal(bz, v)
+}
+
+func bytesEqual(a, b []byte) bool { return string(a) == string(b) }
